@@ -16,20 +16,23 @@
              if latched: if (try_complete) reschedule();   then, unless completed synchronously,
              state_.fetch_or(started): if it was exactly `stopped` → nested stop()
     stop()   (from the stop callback, if state_ was exactly `started`, or from start()):
-             if (try_remove(this)) if (try_complete(this)) set_done(receiver)      -- INLINE
+             if (try_remove(this)) if (try_complete(this)) { cancelled_ = true; reschedule(); }
     try_complete = state_.fetch_or(completed) wins iff it was not yet set; the winner tells a
              start() that has not yet set `started` (sync_complete), destroys the stop callback
-    reschedule() = schedule() on the receiver's scheduler with an UNSTOPPABLE token, then set_value
+    reschedule() = schedule() on the receiver's scheduler with an UNSTOPPABLE token; when that runs:
+             cancelled_ ? set_done(receiver) : set_value(receiver)
+             (the model follows the repaired code, tools/checks/c16_repair.patch: before the repair
+             stop() called set_done(receiver) INLINE on the thread that requested stop, although the
+             sender advertises `is_always_scheduler_affine`)
 
   Steps: one per atomic operation / list operation / completion; the store to `sync_complete` is
   merged with the fetch_or that precedes it (the only reader spins on it), destroying the stop
-  callback is merged with the step that follows it (enqueue on the waiter's scheduler / set_done).
+  callback is merged with the step that follows it (enqueue on the waiter's scheduler).
   Destroying a stop callback blocks while that callback runs on another thread.
 
-  The receivers use a deferred scheduler driven by the waiter's own thread, so a rescheduled
-  completion `value<k>` runs on thread T(k+1); a cancellation completes `done<k>` inline on the
-  thread that won the removal — for a stop request from another thread that is NOT the waiter's
-  scheduler (`offThread`), although the sender advertises `is_always_scheduler_affine`.
+  The receivers use a deferred scheduler driven by the waiter's own thread, so every completion —
+  `value<k>` and the `done<k>` of a cancelled wait — runs on thread T(k+1) (`offThread` stays false).
+  The completion may destroy the operation state: every later access to it is flagged (`bad = 6`).
 
   Threads: controller 0 = T0, waiter k = T(k+1), controller j>0 = T(nW+j).
 -/
@@ -49,7 +52,7 @@ structure Config where
 
 /-- waiter pcs: 0 call, 1 register cb, 2 push, 3 fast-path try_complete, 4 fast-path reschedule,
     5 load sync_complete, 6 fetch_or(started), 7 stop(): try_remove, 8 stop(): try_complete,
-    9 stop(): set_done, 10 return from start, 11 drive own scheduler, 12 finished -/
+    9 stop(): cancelled_ = true; reschedule, 10 return from start, 11 drive own scheduler, 12 finished -/
 structure Wt where
   pc : Nat
   stopped : Bool      -- cancellable state bits
@@ -60,6 +63,8 @@ structure Wt where
   stopReq : Bool      -- the receiver's stop source
   cbReg : Bool
   cbRun : Nat         -- 0 / thread id + 1 running the stop callback
+  cancelled : Bool    -- cancelled_
+  removed : Bool      -- history: a stop() took this waiter off the list (it won the cancel race)
   covered : Bool      -- history: the event was latched while this waiter was (being) enqueued
   outcome : Nat       -- history: 0 none, 1 value, 2 done
   count : Nat         -- history: completions delivered
@@ -67,7 +72,7 @@ structure Wt where
 
 /-- controller pcs: 0 idle; set: 1 latch_and_drain, 2 pop_front, 3 try_complete, 4 reschedule;
     5 reset (unlatch), 14 reset return; 6 ready load, 7 ready return; stop: 8 request, 9 callback fetch_or(stopped),
-    10 try_remove, 11 try_complete, 12 set_done, 13 callback returns -/
+    10 try_remove, 11 try_complete, 12 cancelled_ = true; reschedule, 13 callback returns -/
 structure Ct where
   ip : Nat
   pc : Nat
@@ -82,10 +87,12 @@ structure St where
   ws : List Wt
   cs : List Ct
   offThread : Bool   -- history: a completion ran on a thread other than the waiter's own
-  bad : Nat          -- history: 1 completed twice, 2 value without a set, 3 done without a stop request
+  bad : Nat          -- history: 1 completed twice, 2 value without a set, 3 done without a stop request,
+                     -- 4 value although a stop() had removed the waiter, 5 done although no stop() removed it,
+                     -- 6 operation state accessed after its completion was delivered
   deriving DecidableEq, Repr
 
-def Wt.init : Wt := ⟨0, false, false, false, false, false, false, false, 0, false, 0, 0⟩
+def Wt.init : Wt := ⟨0, false, false, false, false, false, false, false, 0, false, false, false, 0, 0⟩
 def Ct.init : Ct := ⟨0, 0, [], 0, false⟩
 
 def init (cfg : Config) : St :=
@@ -111,8 +118,15 @@ def complete (s : St) (k t out : Nat) : St :=
   let s1 := if w.count ≥ 1 then flag s 1 else s
   let s2 := if out = 1 && !w.covered then flag s1 2 else s1
   let s3 := if out = 2 && !w.stopReq then flag s2 3 else s2
+  let s3 := if out = 1 && w.removed then flag s3 4 else s3
+  let s3 := if out = 2 && !w.removed then flag s3 5 else s3
   let s4 := if t ≠ k + 1 then { s3 with offThread := true } else s3
   setW s4 k { getW s4 k with outcome := out, count := w.count + 1 }
+
+/-- an access to the operation state of waiter `k` (its cancellable state, list node, cancelled_,
+    reschedule_op_): flagged if the completion has already been delivered (the receiver may have
+    destroyed the operation) -/
+def touch (s : St) (k : Nat) : St := if (getW s k).count ≥ 1 then flag s 6 else s
 
 /-- try_remove(k): from the event's list or from the local list of a running set() -/
 def inAnyList (s : St) (k : Nat) : Bool := s.main.contains k || s.cs.any (fun c => c.loc.contains k)
@@ -151,22 +165,20 @@ def stepW (cfg : Config) (s : St) (k : Nat) : Option (Lbl × St) :=
     if w.stopped && !w.completed then some (tau t, setW s k { w with pc := 7, started := true })
     else some (tau t, setW s k { w with pc := 10, started := true })   -- (sync is set with `completed`)
   | 7 =>  -- nested stop(): try_remove
-    if inAnyList s k then some (tau t, setW (removeAny s k) k { w with pc := 8 })
+    if inAnyList s k then some (tau t, setW (removeAny s k) k { w with pc := 8, removed := true })
     else some (tau t, setW s k { w with pc := 10 })
   | 8 =>
     if w.completed then some (tau t, setW s k { w with pc := 10 })
     else some (tau t, setW s k { w with pc := 9, completed := true })
-  | 9 =>
-    if canDestroyCb w t then
-      some (ev t s!"done{k}", setW (complete (setW s k { w with cbReg := false }) k t 2) k
-              { getW (complete (setW s k { w with cbReg := false }) k t 2) k with pc := 10 })
+  | 9 =>  -- (destroy the stop callback;) cancelled_ = true; reschedule()
+    if canDestroyCb w t then some (tau t, setW s k { w with pc := 10, cbReg := false, cancelled := true, sched := true })
     else none
   | 10 => some (ev t s!"wait{k}.end", setW s k { w with pc := 11 })
   | 11 =>
     if w.sched then
-      let s1 := complete (setW s k { w with sched := false }) k t 1
-      some (ev t s!"value{k}", setW s1 k { getW s1 k with pc := 12 })
-    else if w.count ≥ 1 then some (tau t, setW s k { w with pc := 12 })
+      -- the reschedule operation runs on the waiter's scheduler: cancelled_ ? set_done : set_value
+      let s1 := complete (setW s k { w with sched := false }) k t (if w.cancelled then 2 else 1)
+      some (ev t (if w.cancelled then s!"done{k}" else s!"value{k}"), setW s1 k { getW s1 k with pc := 12 })
     else none
   | _ => none
 
@@ -193,6 +205,7 @@ def stepC (cfg : Config) (s : St) (j : Nat) : Option (Lbl × St) :=
     | [] => some (ev t "set.end", setT s j { c with pc := 0, ip := c.ip + 1 })
     | i :: rest => some (tau t, setT s j { c with pc := 3, loc := rest, cur := i })
   | 3 =>  -- resume_: try_complete
+    let s := touch s c.cur
     let w := getW s c.cur
     if w.completed then some (tau t, setT s j { c with pc := 2 })
     else
@@ -200,7 +213,9 @@ def stepC (cfg : Config) (s : St) (j : Nat) : Option (Lbl × St) :=
       some (tau t, setT (setW s c.cur w') j { c with pc := 4 })
   | 4 =>  -- (destroy the stop callback;) reschedule(): enqueue on the waiter's scheduler
     let w := getW s c.cur
-    if canDestroyCb w t then some (tau t, setT (setW s c.cur { w with cbReg := false, sched := true }) j { c with pc := 2 })
+    if canDestroyCb w t then
+      let s := touch s c.cur
+      some (tau t, setT (setW s c.cur { w with cbReg := false, sched := true }) j { c with pc := 2 })
     else none
   | 5 => some (tau t, setT { s with latched := false } j { c with pc := 14 })   -- unlatch
   | 14 => some (ev t "reset.end", setT s j { c with pc := 0, ip := c.ip + 1 })
@@ -211,21 +226,27 @@ def stepC (cfg : Config) (s : St) (j : Nat) : Option (Lbl × St) :=
     if w.cbReg then some (tau t, setT (setW s c.cur { w with stopReq := true, cbRun := t + 1 }) j { c with pc := 9 })
     else some (tau t, setT (setW s c.cur { w with stopReq := true }) j { c with pc := 13 })
   | 9 =>  -- stop callback: state_.fetch_or(stopped) == started ?
+    let s := touch s c.cur
     let w := getW s c.cur
     let s1 := setW s c.cur { w with stopped := true }
     if w.started && !w.stopped && !w.completed then some (tau t, setT s1 j { c with pc := 10 })
     else some (tau t, setT s1 j { c with pc := 13 })
   | 10 =>
-    if inAnyList s c.cur then some (tau t, setT (removeAny s c.cur) j { (getT (removeAny s c.cur) j) with pc := 11 })
+    let s := touch s c.cur
+    if inAnyList s c.cur then
+      let s1 := removeAny s c.cur
+      some (tau t, setT (setW s1 c.cur { getW s1 c.cur with removed := true }) j { (getT s1 j) with pc := 11 })
     else some (tau t, setT s j { c with pc := 13 })
   | 11 =>
+    let s := touch s c.cur
     let w := getW s c.cur
     if w.completed then some (tau t, setT s j { c with pc := 13 })
     else some (tau t, setT (setW s c.cur { w with completed := true }) j { c with pc := 12 })
-  | 12 =>  -- destroy the callback from inside itself; set_done(receiver) inline
+  | 12 =>  -- destroy the callback from inside itself; cancelled_ = true; reschedule(): the set_done
+           -- is delivered by the waiter's scheduler, not here
+    let s := touch s c.cur
     let w := getW s c.cur
-    let s1 := complete (setW s c.cur { w with cbReg := false }) c.cur t 2
-    some (ev t s!"done{c.cur}", setT s1 j { c with pc := 13 })
+    some (tau t, setT (setW s c.cur { w with cbReg := false, cancelled := true, sched := true }) j { c with pc := 13 })
   | 13 =>
     let w := getW s c.cur
     some (ev t s!"stop{c.cur}.end", setT (setW s c.cur { w with cbRun := 0 }) j { c with pc := 0, ip := c.ip + 1 })
@@ -242,9 +263,11 @@ def final (cfg : Config) (s : St) : Bool :=
   s.ws.all (fun w => w.pc == 12) &&
   (List.range s.cs.length).all (fun j => (getT s j).pc == 0 && decide ((cfg.scripts.getD j []).length ≤ (getT s j).ip))
 
-/-- The property as a state predicate (without scheduler affinity, see `affine`):
+/-- The property as a state predicate (scheduler affinity is `affine`):
     * no waiter completes twice, none with value without a set(), none with done without a stop
-      request (`bad = 0`);
+      request, none with value after a stop() removed it from the list (it won the cancel race),
+      none with done unless a stop() removed it, and the operation state is never accessed after
+      its completion was delivered (`bad = 0`);
     * no deadlock;
     * at the end every waiter has completed exactly once (all configurations end with a set()). -/
 def safe (cfg : Config) (s : St) : Bool :=
@@ -259,29 +282,30 @@ def affine (s : St) : Bool := !s.offThread
 /-! ### coding (fixed layout, see Proto/Code16.lean) -/
 open Code16
 
-/-- 12 digits -/
+/-- 14 digits -/
 def encWt (w : Wt) : Nat :=
   dcons w.pc (dcons (b2n w.stopped) (dcons (b2n w.started) (dcons (b2n w.completed) (dcons (b2n w.sync)
     (dcons (b2n w.sched) (dcons (b2n w.stopReq) (dcons (b2n w.cbReg) (dcons w.cbRun (dcons (b2n w.covered)
-      (dcons w.outcome (dcons w.count 0)))))))))))
+      (dcons w.outcome (dcons w.count (dcons (b2n w.cancelled) (dcons (b2n w.removed) 0)))))))))))))
 def decWt (n o : Nat) : Wt :=
   ⟨dig n o, dig n (o+1) == 1, dig n (o+2) == 1, dig n (o+3) == 1, dig n (o+4) == 1, dig n (o+5) == 1,
-   dig n (o+6) == 1, dig n (o+7) == 1, dig n (o+8), dig n (o+9) == 1, dig n (o+10), dig n (o+11)⟩
+   dig n (o+6) == 1, dig n (o+7) == 1, dig n (o+8), dig n (o+12) == 1, dig n (o+13) == 1, dig n (o+9) == 1,
+   dig n (o+10), dig n (o+11)⟩
 
 /-- 9 digits -/
 def encCt (c : Ct) : Nat := dcons c.ip (dcons c.pc (dcons c.cur (dcons (b2n c.r) (encLN c.loc))))
 def decCt (n o : Nat) : Ct := ⟨dig n o, dig n (o+1), decL n (o+4), dig n (o+2), dig n (o+3) == 1⟩
 
-/-- layout: nW, nC, latched, offThread, bad, main (5), waiters (12 each), controllers (9 each), terminator -/
+/-- layout: nW, nC, latched, offThread, bad, main (5), waiters (14 each), controllers (9 each), terminator -/
 def encSt (s : St) : Nat :=
   dcons s.ws.length (dcons s.cs.length (dcons (b2n s.latched) (dcons (b2n s.offThread) (dcons s.bad
-    (encLN s.main + 16 ^ 5 * (packW 12 encWt s.ws + 16 ^ (12 * s.ws.length) *
+    (encLN s.main + 16 ^ 5 * (packW 14 encWt s.ws + 16 ^ (14 * s.ws.length) *
       (packW 9 encCt s.cs + 16 ^ (9 * s.cs.length))))))))
 
 def decSt (n : Nat) : St :=
   { latched := dig n 2 == 1, main := decL n 5,
-    ws := (List.range (dig n 0)).map (fun i => decWt n (10 + 12 * i)),
-    cs := (List.range (dig n 1)).map (fun j => decCt n (10 + 12 * dig n 0 + 9 * j)),
+    ws := (List.range (dig n 0)).map (fun i => decWt n (10 + 14 * i)),
+    cs := (List.range (dig n 1)).map (fun j => decCt n (10 + 14 * dig n 0 + 9 * j)),
     offThread := dig n 3 == 1, bad := dig n 4 }
 
 def coded : Coded St := { enc := encSt, dec := decSt, M := 1021, W := 256 }
